@@ -580,7 +580,7 @@ func c42HsCheck(r *vkit.Run, c *c42Case) {
 }
 
 func c42(r *vkit.Run) {
-	r.SetRule("every (client, certificate, version TLS1.0-1.2, suite) combination bfe_tls enables (37 with Go's crypto/tls client, RSA-SM4-SM3 x3 with bfe's own client as traffic generator; SSLv3 excluded: no standard client) x 28 tamper kinds (bit flips in type/version/length/first/middle/last body byte, cuts inside body/header/at boundary, duplicate, later replay, swap, drop, length edits, cross-connection insert/replace, forged and empty record) x 3 positions (first, middle, last post-handshake record incl. close_notify), plus one untampered control per combination, plus handshake-phase tampering (bit flip in the body of each of the client's ClientHello/ClientKeyExchange/ChangeCipherSpec/Finished records, drop, duplicate, swap: the server handshake must fail); thorough adds seeded sequences of 2-3 ops and single-bit flips at random offsets. Oracle: server bytes are a prefix of the client's plaintext and the Read loop ends with a non-nil error other than io.EOF. Ops whose effect lies wholly after the close_notify record are not counted. Non-trivial = delivered stream differs from the original; distinct = (combination, chunking, op list)")
+	r.SetRule("every (client, certificate, version TLS1.0-1.2, suite) combination bfe_tls enables (37 with Go's crypto/tls client, RSA-SM4-SM3 x3 with bfe's own client as traffic generator; SSLv3 excluded: no standard client) x 28 tamper kinds (bit flips in type/version/length/first/middle/last body byte, cuts inside body/header/at boundary, duplicate, later replay, swap, drop, length edits, cross-connection insert/replace, forged and empty record) x 3 positions (first, middle, last post-handshake record incl. close_notify), plus one untampered control per combination, plus handshake-phase tampering (bit flip in the body of each of the client's ClientHello/ClientKeyExchange/ChangeCipherSpec/Finished records, drop, duplicate, swap: the server handshake must fail or its first Read must return an error with no data; record headers of clear-text handshake records and the 4-byte handshake message header are left alone, TLS does not authenticate the former and a larger length in the latter only stalls); thorough adds seeded sequences of 2-3 ops and single-bit flips at random offsets. Oracle: server bytes are a prefix of the client's plaintext and the Read loop ends with a non-nil error other than io.EOF. Ops whose effect lies wholly after the close_notify record are not counted. Non-trivial = delivered stream differs from the original; distinct = (combination, chunking, op list)")
 	getPKI()
 	donors := &c42Donors{m: map[c42Combo][][]byte{}}
 	if r.Replay != "" {
